@@ -170,3 +170,99 @@ def policy_hygiene(cx, chk, cfg, F, short, rule_peek, rule_purge):
                           f["span"]["file"], f["span"]["lo"], f["q"], None, cfg)
         else:
             chk.ob(rule_purge, "%s:%s::purge" % (cfg, short), "purges %s" % sorted(".".join(x) for x in retained))
+
+
+# ------------------------------------------------------------------ configuration integrity (shared by C01, C07, C08, C10)
+def _self_field(v):
+    """name of the field of `self` (parameter 1) a value is read from, else None"""
+    while isinstance(v, tuple) and v[0] == "moved":
+        v = v[1]
+    if isinstance(v, tuple) and v[0] == "proj" and isinstance(v[1], tuple) and v[1][0] == "param" and v[1][1] == 1 and v[2]:
+        return v[2][0]
+    if isinstance(v, tuple) and v[0] == "load" and v[1][0] == "H" and isinstance(v[1][1], tuple) and v[1][1][0] == "param" and v[1][1][1] == 1 and v[1][2]:
+        return v[1][2][0]
+    return None
+
+
+def builder_setters(cx, chk, cfg, F, rule, only=None):
+    """every method of a *Builder type that consumes the builder and returns a builder rebuilds it field by field: a field that is taken
+    from the old builder must be taken from the SAME field (sizes, ratios and hashers are never cross-wired on their way from the
+    caller's arguments to `finalize`).  Returns the number of setter methods analysed."""
+    n = 0
+    for adt in F.doc["adts"]:
+        if not adt["name"].endswith("Builder") or adt["kind"] != "Struct" or (only and not adt["name"].endswith(only)):
+            continue
+        for f, im in api.cache_methods(F, adt["name"]):
+            if im["trait"] or not f.get("has_self") or F.body(f["path"]) is None:
+                continue
+            out = f.get("output") or {}
+            if not (out.get("k") == "adt" and out.get("n") == adt["name"]):
+                continue
+            n += 1
+            ok = True
+            for p in cx.paths(cfg, f["path"]):
+                rv = p.ret
+                while isinstance(rv, tuple) and rv[0] == "moved":
+                    rv = rv[1]
+                if rv == ("param", 1, True):
+                    continue        # returns self after in-place updates: judged below through the stores
+                if not (isinstance(rv, tuple) and rv[0] == "agg" and rv[1] == "adt" and rv[2][0] == adt["name"]):
+                    continue
+                for fld, v in zip(rv[4], rv[3]):
+                    src = _self_field(v)
+                    if src is not None and src != fld:
+                        ok = False
+                        chk.violation(rule, "%s|%s" % (f["q"], fld), "%s rebuilds the builder with field `%s` taken from `self.%s`: the configured %s is silently replaced" % (f["q"], fld, src, fld),
+                                      f["span"]["file"], f["span"]["lo"], f["q"], None, cfg)
+                for e in p.events:
+                    if e["ev"] == "store" and e["loc"][0] == "H" and isinstance(e["loc"][1], tuple) and e["loc"][1][0] == "param" and e["loc"][1][1] == 1 and e["loc"][2]:
+                        src = _self_field(e["val"])
+                        if src is not None and src != e["loc"][2][0]:
+                            ok = False
+                            chk.violation(rule, "%s|%s" % (f["q"], e["loc"][2][0]), "%s stores `self.%s` into field `%s`" % (f["q"], src, e["loc"][2][0]), f["span"]["file"], e.get("ln"), f["q"], None, cfg)
+            if ok:
+                chk.ob(rule, "%s:%s" % (cfg, f["q"]), "fields kept from the old builder keep their place")
+    return n
+
+
+def clone_bounds(cx, chk, cfg, F, rule, only=None):
+    """the bounds of a clone are the bounds of the original: in the Clone impl of every cache type each usize field and each inner list
+    is rebuilt from the same field of self (RawLRU: cap from self.cap)"""
+    from . import absint
+
+    class NoCloneInline(absint.DefaultPolicy):
+        def inline(self, interp, fr, info):
+            return not (info["q"].endswith("Clone>::clone") or info["q"].endswith("Clone::clone"))
+    n = 0
+    for short, adt in api.CACHES.items():
+        if only and short not in only:
+            continue
+        A = F.adts.get(adt)
+        for im in F.doc["impls"]:
+            if not ((im["trait"] or "").endswith("clone::Clone") and im["self_head"] == adt):
+                continue
+            fn = [F.fns[i] for i in im["items"] if i in F.fns and F.fns[i]["name"] == "clone"]
+            if not fn:
+                continue
+            f = fn[0]
+            n += 1
+            ok = True
+            raw = short == "RawLRU"
+            for p in (cx.paths(cfg, f["path"]) if raw else cx.paths(cfg, f["path"], policy=NoCloneInline(), tag="noclone")):
+                rv = p.ret
+                while isinstance(rv, tuple) and rv[0] == "moved":
+                    rv = rv[1]
+                if not (isinstance(rv, tuple) and rv[0] == "agg" and rv[1] == "adt" and rv[2][0] == adt):
+                    continue
+                vals = dict(zip(rv[4], rv[3]))
+                for fld in A["variants"][0]["fields"]:
+                    if fld["ty"] != "usize":
+                        continue
+                    src = _self_field(vals.get(fld["n"]))
+                    if src != fld["n"]:
+                        ok = False
+                        chk.violation(rule, "%s|%s" % (f["q"], fld["n"]), "the clone's `%s` is %s, not self.%s: the copy reports / enforces a different bound than the original" % (
+                            fld["n"], ("self." + src) if src else absint.fmt_val(vals.get(fld["n"]))[:50], fld["n"]), f["span"]["file"], f["span"]["lo"], f["q"], None, cfg)
+            if ok:
+                chk.ob(rule, "%s:%s" % (cfg, f["q"]), "every usize bound of the clone comes from the same field of self")
+    return n
